@@ -109,7 +109,17 @@ def impl_p9_cases(payload):
                 return None
             if code == 1:
                 return False
-            return np.full((n + c['extra'], 3), SENT, dtype=dt)
+            rows = n + c['extra']
+            layout = c.get('layout', 'contig')
+            if layout == 'cols':      # a valid (rows, 3) array that is not C-contiguous: columns of a wider caller-owned buffer
+                return np.full((rows, 7), SENT, dtype=dt)[:, 2:5]
+            if layout == 'rec':       # a field of a structured particle array
+                rec = np.zeros(rows, dtype=[('tag', 'i4'), ('x', dt, 3), ('w', 'f4')])
+                rec['x'] = SENT
+                return rec['x']
+            if layout == 'fortran':
+                return np.asfortranarray(np.full((rows, 3), SENT, dtype=dt))
+            return np.full((rows, 3), SENT, dtype=dt)
         po, vo = mk(c['pc']), mk(c['vc'])
         try:
             rp, rv = unpack_pack9(data, c['box'], c['velz'], float_dtype=dt, posout=po, velout=vo)
@@ -346,6 +356,10 @@ def p9_cases(ctx):
             box, velz = SCALES[rng.randrange(len(SCALES))]
             cases.append({'kind': pattern, 'box': box, 'velz': velz, 'dtype': dt, 'pc': pc, 'vc': vc, 'extra': extra,
                           'records': recs})
+            if 2 in (pc, vc) and pattern == 'random' and n > 0:
+                # supplied outputs that are valid (N, 3) arrays but not C-contiguous
+                cases.append({'kind': pattern, 'box': box, 'velz': velz, 'dtype': dt, 'pc': pc, 'vc': vc, 'extra': max(extra, 0),
+                              'records': recs, 'layout': rng.choice(['cols', 'rec', 'fortran'])})
             if pattern == 'empty':
                 break
     # (b) every 12-bit value of each of the six fields at least once (particles; field 0 >= 4080 is a header and is
